@@ -76,6 +76,7 @@ func replayBPF(w *World, ob bpfOb) map[string]interface{} {
 		}
 	}
 	prog := strings.TrimSuffix(strings.TrimSuffix(strings.TrimPrefix(ob.Name, "packets."), "#C12.exact"), "#C02.captures")
+	prog = strings.TrimSuffix(prog, "#C12.covers.hbh")
 	var hexs []string
 	for _, b := range frame {
 		hexs = append(hexs, fmt.Sprintf("0x%02x", b))
